@@ -704,7 +704,109 @@ pub async fn run_listener() {
     run(false).await
 }
 
+/// The peer's open carries extreme values: the open / accept call returns (either way) without a
+/// panic or a hang, and a connection that was opened can be closed
+async fn run_weird_open(client_side: bool) {
+    let mfs = pick(&[None, Some(0u32), Some(1), Some(8), Some(255), Some(511), Some(512), Some(u32::MAX)]);
+    let chmax = pick(&[None, Some(0u16), Some(1), Some(65535)]);
+    let idle = pick(&[None, Some(0u32), Some(1), Some(2), Some(u32::MAX)]);
+    let container = pick(&["peer", "", "\u{0}", "a-very-long-container-id-a-very-long-container-id-a-very-long-container-id-a-very-long-container-id"]);
+    let (nab, nba, nd) = world::draw_net(false);
+    sim::set_config(format!("victim={} hostile=WeirdOpen max-frame-size={:?} channel-max={:?} idle-time-out={:?} container-id={:?} {}", if client_side { "client" } else { "listener" }, mfs, chmax, idle, container, nd));
+    sim::mark_nontrivial();
+    sim::set_panic_is_violation(true);
+    sim::fault("hostile-open");
+    let cfg = EndpointCfg::default_cfg();
+    let open = peer::open(container, mfs, chmax, idle);
+    let serve = |mut peer: Peer| async move {
+        // a well-behaved peer from here on: heartbeats if the endpoint asked for them are not
+        // needed (the endpoint has no idle time-out), close is answered
+        let deadline = tokio::time::Instant::now() + std::time::Duration::from_secs(30);
+        while tokio::time::Instant::now() < deadline {
+            match peer.recv_within(200).await {
+                Some(Item::Frame(f)) if f.code == wire::CLOSE => {
+                    peer.send(0, &peer::close(None)).await;
+                    peer.shutdown().await;
+                    break;
+                }
+                Some(_) => {}
+                None => {
+                    if peer.eof || peer.read_error.is_some() {
+                        peer.shutdown().await;
+                        break;
+                    }
+                }
+            }
+        }
+    };
+    if client_side {
+        let (cs, ps, _net) = crate::net::SimStream::pair("client", "peer", nab, nba);
+        let mut peer = Peer::new("peer", ps);
+        let hs = async {
+            let _ = peer.expect_header().await?;
+            peer.send_header(peer::AMQP_HEADER).await;
+            peer.expect(wire::OPEN).await?;
+            peer.send(0, &open).await;
+            Some(())
+        };
+        let (c, _) = match sim::op("open against extreme values", world::join2(sim::in_group(1, world::client_open(&cfg, cs)), hs)).await {
+            Some(x) => x,
+            None => return,
+        };
+        match c {
+            Ok(mut h) => {
+                sim::probe("weird-open-accepted");
+                let (r, _) = world::join2(sim::op("close", h.close()), serve(peer)).await;
+                if r.is_none() {
+                    return;
+                }
+            }
+            Err(_) => {
+                sim::probe("weird-open-refused");
+                serve(peer).await;
+            }
+        }
+    } else {
+        let (ps, ls, _net) = crate::net::SimStream::pair("peer", "listener", nab, nba);
+        let mut peer = Peer::new("peer", ps);
+        let acceptor = world::listener_acceptor(&cfg);
+        let hs = async {
+            peer.send_header(peer::AMQP_HEADER).await;
+            peer.send(0, &open).await;
+            let _ = peer.expect_header().await?;
+            peer.expect(wire::OPEN).await?;
+            Some(())
+        };
+        let (l, _) = match sim::op("accept against extreme values", world::join2(sim::in_group(2, acceptor.accept(ls)), hs)).await {
+            Some(x) => x,
+            None => return,
+        };
+        match l {
+            Ok(mut h) => {
+                sim::probe("weird-open-accepted");
+                let (r, _) = world::join2(sim::op("close", h.close()), serve(peer)).await;
+                if r.is_none() {
+                    return;
+                }
+            }
+            Err(_) => {
+                sim::probe("weird-open-refused");
+                serve(peer).await;
+            }
+        }
+    }
+    sim::sleep_ms(2000).await;
+    sim::until_idle().await;
+    let alive = sim::alive_tasks(true, None);
+    if !alive.is_empty() {
+        sim::violation("engine-task-alive", format!("after the connection was closed or refused, engine tasks are still alive: {:?}", alive));
+    }
+}
+
 async fn run(client_side: bool) {
+    if choice(12) == 0 {
+        return run_weird_open(client_side).await;
+    }
     let kind = pick(&CATALOGUE);
     let (need_s, need_l) = needs(kind);
     let level = choice(4); // 0 open only, 1 session, 2 links, 3 links + traffic in flight
